@@ -75,6 +75,37 @@ class Program:
                     dq.append(t)
         return pred
 
+    def region(self, roots, crate=None, stop=()):
+        """Bodies reachable from `roots` through calls / closure references that stay inside `crate` (default: the crate of
+        the first root), not entering bodies whose id ends with a name in `stop`.  Lets a rule written for a function
+        also see logic that has been moved into local helper functions."""
+        roots = [r for r in roots if r in self.bodies]
+        if not roots:
+            return []
+        crate = crate or self.crate_of[roots[0]]
+        seen, dq = [], deque(roots)
+        while dq:
+            k = dq.popleft()
+            if k in seen:
+                continue
+            seen.append(k)
+            for t in sorted(self.edges.get(k, ())):
+                if t in self.bodies and self.crate_of[t] == crate and t not in seen and not any(self.bodies[t]['id'].split('::{')[0].endswith(x) for x in stop):
+                    dq.append(t)
+            for t in self.children.get(k, []):
+                if t not in seen:
+                    dq.append(t)
+        return seen
+
+    def callers_in(self, keys, target):
+        """[(body key, call record)] of the calls inside `keys` that resolve to `target`."""
+        out = []
+        for k in keys:
+            for c in self.bodies[k]['calls']:
+                if target in self.targets_of_call(c):
+                    out.append((k, c))
+        return out
+
     def path_to(self, pred, k):
         out = []
         while k is not None:
